@@ -124,3 +124,9 @@ package jwsutil
 //@            0 <= dSize(jwk.Key.(*ecdsa.PrivateKey).Curve) && dSize(jwk.Key.(*ecdsa.PrivateKey).Curve) <= 4096 &&
 //@            len(jwk.Key.(*ecdsa.PrivateKey).D.Bytes()) <= dSize(jwk.Key.(*ecdsa.PrivateKey).Curve)
 //@   modifies nothing
+
+// a signer is asked for its headers and for signatures; it does not touch the data being signed
+//@ func (s Signer) Headers() (h)
+//@   pure
+//@ func (s Signer) Sign(data) (sig, err)
+//@   modifies nothing
